@@ -8,12 +8,14 @@ Init == /\ tid \in 1..NTr /\ l = 1 /\ InitWith(Traces[tid].cfg)
 Counters == /\ Chk("total", total', Ev.total) /\ Chk("since", since', Ev.since) /\ Chk("state", st', Ev.state)
 DistOK(d) == IF Ev.dist = "NA" \/ d = "None" THEN TRUE ELSE ChkB("divergence", Close(d, Ev.dist), <<d, Ev.dist>>)
 CritOK == IF Ev.c.crit = "NA" THEN TRUE ELSE Chk("critical value", crit', Ev.c.crit)
+(* the detector's own to_plotly_dataframe(): the reference tree with the test counts filed so far (taken at some of the updates) *)
+ViewOK == IF ~Ev.viewed THEN TRUE ELSE IF tree' = NoTree THEN TRUE ELSE Chk("detector-level plotly view", PlotlyD(tree', 1, 2, 0), Ev.view)
 SUpd == /\ More /\ Ev.op = "update" /\ dcfg.kind = "stream"
-        /\ StreamStep(Ev.x, Ev.c) /\ Counters /\ DistOK(dist') /\ CritOK /\ Adv
+        /\ StreamStep(Ev.x, Ev.c) /\ Counters /\ DistOK(dist') /\ CritOK /\ ViewOK /\ Adv
 SRst == /\ More /\ Ev.op = "reset" /\ StreamReset /\ Counters /\ Adv      \* both kinds: reset() drops the reference (a batch detector then takes its next batch as the reference)
 BRef == /\ More /\ Ev.op = "set_reference" /\ SetReference(Ev.data, Ev.c) /\ Counters /\ CritOK /\ Adv
 BUpd == /\ More /\ Ev.op = "update" /\ dcfg.kind = "batch"
-        /\ BatchStep(Ev.data, Ev.c0) /\ Counters /\ DistOK(dist') /\ CritOK /\ Adv
+        /\ BatchStep(Ev.data, Ev.c0) /\ Counters /\ DistOK(dist') /\ CritOK /\ ViewOK /\ Adv
 Diag == /\ Note("critical value outside the bracket of the documented (1 - alpha) bootstrap quantile",
                 More /\ Ev.op # "reset" /\ Ev.c.lo # "None" /\ ~BracketOK(Ev.c), Ev.c)
         /\ Note("critical value (of the re-built reference) outside its bracket",
